@@ -8,7 +8,7 @@ from tickermodel import TickerModel
 from ackmodel import AckModel
 
 WITNESSES = ['W2EntryUpdatePrivate']
-from sym import ipaths
+from sym import ipaths, noop_store
 
 LEVEL = "other"
 EXPLANATION = ("Finite decision tables extracted from MIR and compared with the specification: the field-wise entry "
@@ -57,7 +57,7 @@ def run(ctx):
             rem = [a[2] for a in p.atoms if a[0] == "bool" and a[1] == ("param", pr)]
             tv_ = p.variant_of(("param", pt))
             vv_ = p.variant_of(("param", pv))
-            exp_w = [x for x in p.stores if x[0] == ("field", ("param", 1), L.EXP)]
+            exp_w = [x for x in p.stores if x[0] == ("field", ("param", 1), L.EXP) and not noop_store(p, x[0], x[1])]
             val_w = [x for x in p.stores if x[0][0] == "field" and x[0][1] == ("param", 1) and x[0][2] not in (L.EXP,)]
             other = [x for x in val_w if x[0][2] in (L.SOFT, L.ID)]
             r = rem[0] if rem else None
